@@ -1263,6 +1263,7 @@ fn main() {
     let mut noword_via: std::collections::BTreeMap<String, u64> = Default::default();
     let mut noword_steps_by: std::collections::BTreeMap<String, u64> = Default::default();
     let mut n_c01_sessions = 0u64;
+    let (mut n_symtab_empty, mut n_symtab_empty_row) = (0u64, 0u64);
     let (mut n_engine_switch_mid, mut n_engine_switch_partial, mut n_unlearn_hit_buffered) = (0u64, 0u64, 0u64);
 
     for sid in 0..n_sessions {
@@ -1319,7 +1320,20 @@ fn main() {
             f.flush().unwrap();
             AbbrevTable::open(f.path()).unwrap()
         };
-        let sym_sel = SymbolSelector::new(std::io::Cursor::new("…\n※\n常用符號=，、。\n括號=（）「」\n")).unwrap();
+        // FX1 (C07): every sixth session has NO symbol table (an editor created without symbols.dat), every sixth
+        // one a category without symbols (own stream: the other choices are unchanged)
+        let symtab_kind = Rng::new(seed.wrapping_mul(5_555_557).wrapping_add(sid)).below(6);
+        let sym_sel = SymbolSelector::new(std::io::Cursor::new(match symtab_kind {
+            0 => "",
+            1 => "…\n空=\n※\n常用符號=，、。\n括號=（）「」\n",
+            _ => "…\n※\n常用符號=，、。\n括號=（）「」\n",
+        }))
+        .unwrap();
+        match symtab_kind {
+            0 => n_symtab_empty += 1,
+            1 => n_symtab_empty_row += 1,
+            _ => (),
+        }
         let mut ed = Editor::new(engine(engine_kind, &conv_log), dict, LaxUserFreqEstimate::new(rng.below(3) * 5000), abbr, sym_sel);
         ed.set_syllable_editor(Box::new(SharedLayout(lay.clone())));
         let mut o = ed.editor_options();
@@ -1632,6 +1646,8 @@ fn main() {
     out.stat("c01_steps_from_noword_state", n_noword_steps);
     out.stat("c01_sessions_reaching_noword_state", n_noword_sessions);
     out.stat("c01_sessions_with_noword_scenarios", n_c01_sessions);
+    out.stat("c07_sessions_with_empty_symbol_table", n_symtab_empty);
+    out.stat("c07_sessions_with_empty_symbol_category", n_symtab_empty_row);
     for (k, n) in &noword_steps_by {
         out.stat(&format!("c01_steps_from_noword_state.{}", k), n);
     }
